@@ -6,6 +6,8 @@ every determinant multiset must be identical (values exact: determinants are mov
 be symmetric and the determinant row of a group is starred iff it has a coupled partner (API string per
 conformation, and the written table for the reported conformation).
 """
+import os
+
 from hypothesis import strategies as st
 
 from vlib import gen, observe, pdbio, common, pkaparse
@@ -21,7 +23,7 @@ RULE = ("whole reference proteins with threaded clusters of like groups around b
 ASSUMPTIONS = ["determinant lists are compared as multisets per type: swapping and swapping back re-orders the list"]
 
 
-def run_with(text, enabled, count_swaps=False):
+def run_with(text, enabled, count_swaps=False, opt=()):
     from propka.coupled_groups import NCCG
     old = NCCG.do_prot_stat
     swaps = [0]
@@ -33,7 +35,7 @@ def run_with(text, enabled, count_swaps=False):
         NCCG.swap_interactions = wrapped
     NCCG.do_prot_stat = enabled
     try:
-        rec = observe.run(text, [], name="a", keep_mol=True)
+        rec = observe.run(text, list(opt), name="a", keep_mol=True)
     finally:
         NCCG.do_prot_stat = old
         if count_swaps:
@@ -41,10 +43,25 @@ def run_with(text, enabled, count_swaps=False):
     return rec, swaps[0]
 
 
+def loose_cfg():
+    """Parameter file with wider coupling thresholds (more coupled pairs, incl. ligand groups)."""
+    path = os.path.abspath("loose_coupling.cfg")
+    if not os.path.exists(path):
+        changed = {"max_intrinsic_pka_diff": "3.5", "min_interaction_energy": "0.3", "max_free_energy_diff": "2.0",
+                   "min_swap_pka_shift": "0.5", "max_pka": "12.0"}
+        out = []
+        for line in open(os.path.join(os.environ.get("VERIF_REPO", "/repo"), "propka", "propka.cfg")):
+            w = line.split()
+            out.append("%s %s\n" % (w[0], changed[w[0]]) if w and w[0] in changed else line)
+        open(path, "w").writelines(out)
+    return path
+
+
 def check_case(case):
     text = case["pdb"]
-    ron, swaps = run_with(text, True, count_swaps=True)
-    roff, _ = run_with(text, False)
+    opt = ["-p", loose_cfg()] if case.get("loose") else []
+    ron, swaps = run_with(text, True, count_swaps=True, opt=opt)
+    roff, _ = run_with(text, False, opt=opt)
     if ron["error"] or roff["error"]:
         if ron["error"] and roff["error"]:
             return [], {"labels": ["both-error"]}
@@ -90,12 +107,16 @@ def check_case(case):
                     v.append({"clause": "coupling-symmetric", "detail": "%s lists %s but not vice versa [%s]" % (
                         g.label, o.label, c), "sig": "icode-twin" if shared and common.twin_atoms(pdbio.parse(text))
                         else None})
-            s = g.get_determinant_string()
-            first = s.split("\n")[0]
-            star = len(first) > 16 and first[16] == "*"
-            if star != bool(g.non_covalently_coupled_groups):
-                v.append({"clause": "star-iff-coupled", "detail": "%s[%s]: row %r, %d coupled partners" % (
-                    g.label, c, first[:20], len(g.non_covalently_coupled_groups))})
+            for flag in (False, True):          # as the API default and as the .pka writer calls it
+                s = g.get_determinant_string(flag)
+                if not s:
+                    continue
+                first = s.split("\n")[0]
+                star = len(first) > 16 and first[16] == "*"
+                if star != bool(g.non_covalently_coupled_groups):
+                    v.append({"clause": "star-iff-coupled", "detail": "%s[%s]: row %r, %d coupled partners" % (
+                        g.label, c, first[:20], len(g.non_covalently_coupled_groups))})
+                    break
     # the written table (reported conformation): star iff the printed group has a coupled partner
     if ron["pka_text"]:
         parsed = pkaparse.parse(ron["pka_text"])
@@ -174,14 +195,57 @@ def run_shard(ctx):
                         return pdbio.write(out), True
         return s.text, False
 
+    def altloc(s, pick):
+        """Give one threaded residue two alternate-location rotamers (the coupling pattern may then differ between
+        the conformations)."""
+        entries = [e.copy() if isinstance(e, pdbio.Atom) else e for e in s.entries]
+        res = pdbio.residues(entries)
+        muts = s.info.get("mutated") or []
+        if not muts:
+            return s.text, False
+        want = muts[pick % len(muts)]
+        for (m, c, n, ic, t), ats in res:
+            if "%s%d%s" % (t, n, c) == want and ats[0].rec == "ATOM":
+                grid = gen.Grid(pdbio.atoms_of(entries))
+                own = set(id(a) for a in ats)
+                for attempt in range(1, 12):
+                    cand = gen.mutate_residue(ats, t, pick + attempt * 3)
+                    if cand is None:
+                        break
+                    side = [a for a in cand if a.aname not in pdbio.BACKBONE and a.aname not in pdbio.TERMINAL_O]
+                    mine = {a.aname: a for a in ats}
+                    moved = [a for a in side if a.aname in mine and a.xyz != mine[a.aname].xyz]
+                    if moved and not any(id(b) not in own for a in side for b in grid.near(a, 2150)):
+                        out = []
+                        for e in entries:
+                            out.append(e)
+                            if isinstance(e, pdbio.Atom) and e is ats[-1]:
+                                for a in side:
+                                    a.alt = "B"
+                                    out.append(a)
+                        for a in ats:
+                            if a.aname not in pdbio.BACKBONE and a.aname not in pdbio.TERMINAL_O:
+                                a.alt = "A"
+                        seen = set()
+                        for a in pdbio.atoms_of(out):
+                            while a.xyz in seen:
+                                a.x += 1
+                            seen.add(a.xyz)
+                        return pdbio.write(out), True
+        return s.text, False
+
     def body(s):
         text, tw = (s.text, False)
+        if s.info.get("mutated") and len(s.text) % 3 == 1:
+            text, al = altloc(s, len(s.text))
+            if al:
+                s.labels.append("alt-loc-rotamers")
         if s.info.get("mutated") and len(s.text) % 3 == 0:
             text, tw = twinned(s, "A")
         case = {"pdb": text}
         s.labels.append("label-twins") if tw else None
         v, info = check_case(case)
-        info["labels"] = info.get("labels", []) + [l for l in s.labels if l.startswith("cluster:") or l == "label-twins"]
+        info["labels"] = info.get("labels", []) + [l for l in s.labels if l.startswith("cluster:") or l in ("label-twins", "alt-loc-rotamers")]
         info["sample"] = {"structure": s.summary(), "threaded": s.info.get("mutated"), "swap_calls": info.get("swaps")}
         ctx.account(case, v, info)
 
@@ -198,9 +262,12 @@ def run_shard(ctx):
     mine = [names[i] for i in ctx.my_slice(len(names))]
 
     def corpus_body(n):
-        case = {"pdb": gen.corpus_text(n)}
-        v, info = check_case(case)
-        info["sample"] = {"structure": "corpus " + n, "swap_calls": info.get("swaps")}
-        ctx.account(case, v, info)
+        for loose in (False, True):
+            case = {"pdb": gen.corpus_text(n), "loose": loose}
+            v, info = check_case(case)
+            info["labels"] = info.get("labels", []) + (["loose-coupling-parameters"] if loose else [])
+            info["sample"] = {"structure": "corpus " + n, "loose_coupling_parameters": loose,
+                              "swap_calls": info.get("swaps")}
+            ctx.account(case, v, info)
 
     ctx.loop_stage("corpus-files", mine, corpus_body)
